@@ -4,7 +4,7 @@ import random
 import numpy as np
 
 from .. import gen_netlist as N
-from ..simutil import KRandom
+from ..simutil import KRandom, parse_via
 from .. import hier as H
 
 ID = 'C14'
@@ -251,7 +251,7 @@ def check_case(ctx, rng, idx):
         c = verilog.parse(vtext, tlib=lib, branchforks=bf)
         stext, exp_io, exp_ic = gen_sdf(rng, desc, c, lib, bf, stats)
         case['sdf'] = stext
-        df = sdf.parse(stext)
+        df = parse_via(sdf, stext, rng, ctx)
         ctx.count('files')
         ctx.count('branchfork_cases' if bf else 'plain_cases')
         for k, v in stats.items():
